@@ -32,6 +32,12 @@ class DispersionMeasure(u.SpecificTypeQuantity):
     def time_delay(self, f, ref_freq):
         """Time delay of frequencies relative to reference frequency."""
         coeff = self.dispersion_constant * self
+        # Frequencies held as integers would overflow when squared (in Hz),
+        # and single precision is too coarse for the difference.
+        if isinstance(f, u.Quantity):
+            f = f.astype(np.float64)
+        if isinstance(ref_freq, u.Quantity):
+            ref_freq = ref_freq.astype(np.float64)
         delay = coeff * (1 / f ** 2 - 1 / ref_freq ** 2)
         return delay.to(u.s)
 
